@@ -8,6 +8,8 @@ from __future__ import annotations
 import typing
 from contextlib import suppress
 
+from physt.plotting.common import check_ndim
+
 if typing.TYPE_CHECKING:
     from physt.types import Histogram1D, Histogram2D
 
@@ -19,6 +21,7 @@ dims = {
 }
 
 
+@check_ndim(1)
 def hbar(h1: "Histogram1D", width: int = 80, show_values: bool = False) -> None:
     data = (h1.normalize().frequencies * width).round().astype(int)
     for i in range(h1.bin_count):
@@ -35,6 +38,7 @@ with suppress(ImportError):
     SUPPORTED_CMAPS = ("Greys", "Greys_r")
     DEFAULT_CMAP = SUPPORTED_CMAPS[1]
 
+    @check_ndim(2)
     def map(h2: "Histogram2D", **kwargs) -> None:
         """Heat map.
 
